@@ -109,7 +109,7 @@ def c01_2(ctx: Ctx):
               reason_ok=f"{n_pts} order types")
 
 
-@rule("C01.4", ["C01", "C02"], "delete(): split, remove, then splice out exactly the requested range with the edited block static", 6)
+@rule("C01.4", ["C01", "C02", "C05"], "delete(): split, remove, then splice out exactly the requested range with the edited block static", 6)
 def c01_4(ctx: Ctx):
     fi = ctx.repo.func("_modify.edit.delete")
     lin = linear(fi.node)
